@@ -379,3 +379,112 @@ fn p_ipv4_boundary_strict() {
     kani::cover!(matches!(expected, Err(RefIpErr::Len(RefLen { layer: err::Layer::IpAuthHeader, .. }))));
     kani::cover!(matches!(expected, Err(RefIpErr::Len(RefLen { source: LenSource::Ipv4HeaderTotalLen, layer: err::Layer::Ipv4Packet, .. }))));
 }
+
+// ---------------------------------------------------------------------------------------------------------------------------
+// C07 whole-packet error localisation: when the IP layer decodes, a length error of `SlicedPacket` names the transport layer at
+// the offset where the IP payload starts (relative to the slice that was passed in), reports what was really available there
+// and a length source that really limited it. (The Verus contracts cannot decide the numeric offset: slices carry no addresses.)
+// ---------------------------------------------------------------------------------------------------------------------------
+
+fn transport_layer(l: err::Layer) -> bool {
+    matches!(l, err::Layer::UdpHeader | err::Layer::UdpPayload | err::Layer::TcpHeader | err::Layer::Icmpv4 | err::Layer::Icmpv4Timestamp | err::Layer::Icmpv4TimestampReply | err::Layer::Icmpv6)
+}
+
+/// `shift` = number of bytes in front of the IP packet (0 for from_ip, 14 for Ethernet II, ...)
+fn c07_check_transport_error(r: Result<SlicedPacket, err::packet::SliceError>, ip: Result<RefIpOk, RefIpErr>, shift: usize) {
+    use err::packet::SliceError as E;
+    match (r, ip) {
+        (Err(E::Len(e)), Ok(ok)) => {
+            // the IP layer is fine, so the fault lies in the transport layer, which starts where the IP payload starts
+            assert!(transport_layer(e.layer), "length error behind a decodable IP layer does not name a transport layer");
+            assert!(e.layer_start_offset == shift + ok.payload_from, "transport length error: offset is not the start of the IP payload");
+            let avail = ok.payload_to - ok.payload_from;
+            // (ICMPv4 timestamp messages have an exact size: that "length" error has required_len < len)
+            assert!(e.required_len != e.len, "length error whose required length equals the available length");
+            if e.len_source == LenSource::UdpHeaderLen {
+                // the UDP length field itself is too small for the 8 byte header
+                assert!(e.layer == err::Layer::UdpHeader && e.required_len == 8 && e.len < 8);
+            } else {
+                assert!(e.len == avail, "transport length error: `len` is not the number of bytes the IP payload holds");
+                // C07: the IP length field limited the data, unless the decoder names the slice
+                assert!(e.len_source == ok.source || e.len_source == LenSource::Slice, "transport length error names a length source that did not limit the data");
+            }
+            kani::cover!(e.layer == err::Layer::UdpPayload);
+            kani::cover!(e.layer == err::Layer::TcpHeader);
+        }
+        (Err(E::Len(e)), Err(RefIpErr::Len(x))) => {
+            // fault inside the IP layer: exactly the reference fault, shifted
+            assert!(e.layer == x.layer && e.layer_start_offset == shift + x.offset && e.required_len == x.required && e.len == x.len
+                && (e.len_source == x.source || e.len_source == LenSource::Slice), "IP length error differs from the reference fault");
+        }
+        (Ok(p), Ok(ok)) => {
+            // C03: a transport slice starts at the IP payload start
+            let start = match &p.transport {
+                Some(TransportSlice::Udp(u)) => Some(u.slice().as_ptr() as usize),
+                Some(TransportSlice::Tcp(t)) => Some(t.slice().as_ptr() as usize),
+                Some(TransportSlice::Icmpv4(i)) => Some(i.slice().as_ptr() as usize),
+                Some(TransportSlice::Icmpv6(i)) => Some(i.slice().as_ptr() as usize),
+                None => None,
+            };
+            if let (Some(st), Some(NetSlice::Ipv4(v))) = (start, &p.net) {
+                assert!(st == v.payload().payload.as_ptr() as usize);
+                assert!(ok.payload_to - ok.payload_from == v.payload().payload.len());
+            }
+            if let (Some(st), Some(NetSlice::Ipv6(v))) = (start, &p.net) {
+                assert!(st == v.payload().payload.as_ptr() as usize);
+                assert!(ok.payload_to - ok.payload_from == v.payload().payload.len());
+            }
+            kani::cover!(start.is_some());
+        }
+        _ => {}
+    }
+}
+
+/// C07 bounded (all inputs <= 48 B, b[0] == 0x45, protocol one of UDP/TCP/ICMP/ICMPv6/AH): `SlicedPacket::from_ip`
+#[kani::proof]
+#[kani::unwind(4)]
+fn c07_offsets_from_ip_v4() {
+    let mut b: [u8; 48] = kani::any();
+    let l: usize = kani::any();
+    kani::assume(l >= 1 && l <= 48); // the empty slice has no version nibble to dispatch on
+    b[0] = 0x45;
+    kani::assume(matches!(b[9], 17 | 6 | 1 | 58 | 51));
+    let s = &b[..l];
+    c07_check_transport_error(SlicedPacket::from_ip(s), ref_ipv4_strict(s), 0);
+}
+
+/// C07 bounded (all inputs <= 64 B, b[0] == 0x60, next header UDP/TCP/ICMPv6 or one extension header in front): `SlicedPacket::from_ip`
+#[kani::proof]
+#[kani::unwind(5)]
+fn c07_offsets_from_ip_v6() {
+    let mut b: [u8; 64] = kani::any();
+    let l: usize = kani::any();
+    kani::assume(l >= 1 && l <= 64);
+    b[0] = 0x60;
+    kani::assume(matches!(b[6], 17 | 6 | 58 | 44 | 60));
+    let s = &b[..l];
+    let ip = match ref_ipv6_strict(s, 3) {
+        Some(x) => x,
+        None => {
+            kani::assume(false);
+            return;
+        }
+    };
+    c07_check_transport_error(SlicedPacket::from_ip(s), ip, 0);
+}
+
+/// C07 bounded (Ethernet II + IPv4, all inputs <= 54 B, ether type 0x0800, b[14] == 0x45, UDP or TCP): offsets count from the
+/// start of the Ethernet frame
+#[kani::proof]
+#[kani::unwind(4)]
+fn c07_offsets_from_ethernet_v4() {
+    let mut b: [u8; 54] = kani::any();
+    let l: usize = kani::any();
+    kani::assume(l >= 14 && l <= 54);
+    b[12] = 0x08;
+    b[13] = 0x00;
+    b[14] = 0x45;
+    kani::assume(matches!(b[23], 17 | 6));
+    let s = &b[..l];
+    c07_check_transport_error(SlicedPacket::from_ethernet(s), ref_ipv4_strict(&s[14..]), 14);
+}
